@@ -21,13 +21,14 @@ type snapGroup struct {
 
 var snapGroups = []snapGroup{
 	{"Shim", []string{"agent/shimagent/shimserver.go", "agent/shimagent/filter.go", "agent/shimagent/agent.go", "sshutils/cert/validation.go"}},
-	{"Yubi", []string{"agent/yubiagent/server.go", "agent/yubiagent/client.go", "agent/yubiagent/io.go", "agent/yubiagent/message.go", "agent/yubiagent/agent.go"}},
+	{"Yubi", []string{"agent/yubiagent/server.go", "agent/yubiagent/client.go", "agent/yubiagent/io.go", "agent/yubiagent/message.go", "agent/yubiagent/agent.go", "agent/yubiagent/server_notwin.go"}},
 	{"Message", []string{"message/marshal.go", "message/sanity.go", "message/attrs.go"}},
 	{"Param", []string{"csr/param.go", "sshutils/version/sshversion.go", "csr/transid/transid.go", "common/nspolicy.go"}},
 	{"Parse", []string{"attestation/yubiattest/parse.go", "attestation/yubiattest/modhex.go", "agent/utils/parse.go"}},
 	{"Attest", []string{"attestation/yubiattest/attest.go", "attestation/yubiattest/signature.go"}},
-	{"Tls", []string{"tlsutils/config.go", "crypki/signer.go", "crypki/conf.go", "internal/backoff/backoff.go"}},
-	{"GensignAux", []string{"config/hook.go", "config/gensign.go", "gensign/regular/conf.go", "gensign/regular/key.go", "agent/ssh/agent.go", "agent/ssh/opt.go", "csr/agentkey.go", "gensign/handler.go"}},
+	{"Tls", []string{"tlsutils/config.go", "crypki/signer.go", "crypki/conf.go", "internal/backoff/backoff.go", "internal/validate/validate.go"}},
+	{"GensignAux", []string{"config/hook.go", "config/gensign.go", "gensign/regular/conf.go", "gensign/regular/key.go", "agent/ssh/agent.go", "agent/ssh/opt.go", "csr/agentkey.go", "gensign/handler.go",
+		"gensign/error.go", "gensign/otel.go", "cmd/gensign/main.go", "sshutils/key/algo.go", "sshutils/key/validation.go", "csr/generator.go", "csr/signer.go"}},
 	{"KeyId", []string{"keyid/keyid.go"}},
 }
 
